@@ -49,6 +49,9 @@ CHECKS = {
  "C17": ("generative round-trip monitor with reference recognisers (strict decimal grammar, 5-line glob matcher, reference tokeniser), exhaustive wildcard space; " + SAN,
          "Numbers -> toString(17) -> parse; exhaustive/random strings near the decimal grammar against a reference recogniser + strtod; tokenise -> unparse over small-alphabet strings with all option combinations; nested tokenising vs bracket depth; procedure render -> parse -> changeKeyvals; ALL patterns and names over {a,b,*} up to length 8 through the three matching APIs against a glob matcher; variable resolution fixed point; tables <= 6x6 write -> read; every distribution family and nested compounds write -> read. Three recorded findings (writer cannot express median flag / fixed gamma offset / invariant value).",
          "6/C17"),
+ "C18": ("statistical monitors with fixed, derived thresholds (DKW bound on the KS distance against the library's own cdf, Bernstein bounds on category frequencies, delta=1e-13 per comparison), exact structural clauses on every draw, exhaustive small margins for rcont2; " + SAN,
+         "Seed reproducibility (run seed + 15 derived seeds, bitwise); continuous samplers and every distribution's randC (N=20000 per parameter point on a grid avoiding the neutral value 1) against the library's cdf with the same parameters; weighted/unweighted picks, cumulative-sum picks, multinomial and each distribution's discrete rand against the given weights; sampling with/without replacement (distinctness, permutation, refusal, subset, emptiness raises) on every draw; rcont2 row and column sums for all 12.7 M margin pairs with totals <= 12 and random margins up to 200; independence-test p-value in [0,1]. Per-run false-alarm probability < 4e-8.",
+         "6/C18"),
  "C19": ("differential monitor against a long-double implementation of the three codings, round-trip/injectivity/copy/history probes, audit hook on the simplex parameters; " + SAN,
          "Methods 1-3, dimensions 1..33, with/without the zero-allowing constraint; parameter vectors in (0,1)^(n-1) incl. within 1e-9 of the ends -> non-negative probabilities summing to one; probability vectors with entries >= 1e-9 through constructor and setFrequencies -> returned within a conditioning-derived tolerance; injectivity by perturbation and parameter recovery; update routes and history independence; copy independence; OrderedSimplex order/sum/round trip.",
          "6/C19"),
